@@ -114,13 +114,15 @@ def _run(ctx, rep):
             # must end in update_checksum: the last two stores are [9]:=0, [9]:=c with nothing after
             tail = d.stores[-2:]
             ok = len(tail) == 2 and tail[0] == (C(9), ZERO) and tail[1][0] == C(9)
-            last_muts = [ev[1] for ev in I.log if ev[0] == 'mutate'][-2:]
+            # (only events that touch the table: its image or one of its own fields; a local Checksum is not the table)
+            mine = lambda ev: ev[0] == 'mutate' and (len(ev) < 4 or ev[3] is None or ev[3] in (d.uid, sv.uid))
+            last_muts = [ev[1] for ev in I.log if mine(ev)][-2:]
             ok = ok and last_muts == ['index-store', 'index-store']     # nothing touches the image after the recomputation
             rep.ob('checksum', subj, ok, '%s does not end by recomputing the checksum (something modifies the image afterwards or it is not recomputed)' % name, sp=b['sp'],
                    detail={'last_mutations': last_muts})
             # refusal before mutation
             guards = [k for k, ev in enumerate(I.log) if ev[0] == 'guard']
-            muts = [k for k, ev in enumerate(I.log) if ev[0] == 'mutate']
+            muts = [k for k, ev in enumerate(I.log) if mine(ev)]
             if guards:
                 ok = not muts or max(guards) < min(muts)
                 rep.ob('refusal', subj, ok, '%s can panic on a bounds assertion after it has already modified the table' % name, sp=b['sp'],
